@@ -360,6 +360,7 @@ def run(prog, rep, tier):
             why = "low=%s high=%s size=%s generator=%s" % (fmt(slots.get("low", ())), fmt(slots.get("high", ())), fmt(slots.get("size", ())), fmt(c.recv))
         rep.check("RANGE.uniform", ok, fwhere(fc, us[0].node if us else None), "self.%s <- rng.uniform(%s[0], %s[1], size=p) from default_rng(random_state)" % (name, name, name),
                   "range sampling of %s deviates: %s" % (name, why))
+    rep.exhaustive = True      # the finite tables (pairs / valuations) are enumerated completely
     rep.require_count("FORMULA", 3)
     rep.require_count("DTYPE", 2)
     rep.require_count("LAYOUT", 4)
